@@ -222,6 +222,9 @@ func genLeafValue(t *rapid.T, typ reflect.Type, label string, nonEmpty bool, sal
 			}
 			cs = append(cs, c)
 		}
+		if n == 0 && rapid.Bool().Draw(t, label+".emptynonnil") {
+			return reflect.ValueOf(files.Contents{})
+		}
 		return reflect.ValueOf(cs)
 	case typ.Kind() == reflect.String:
 		return reflect.ValueOf(str(label)).Convert(typ)
@@ -246,6 +249,9 @@ func genLeafValue(t *rapid.T, typ reflect.Type, label string, nonEmpty bool, sal
 			s = reflect.Append(s, reflect.ValueOf(salt+rapid.StringMatching(`[a-z]{1,4}`).Draw(t, fmt.Sprintf("%s.%d", label, i))))
 		}
 		if n == 0 {
+			if rapid.Bool().Draw(t, label+".emptynonnil") {
+				return reflect.MakeSlice(typ, 0, 0) // present but empty: must not replace anything
+			}
 			return reflect.Zero(typ)
 		}
 		return s
@@ -613,19 +619,35 @@ func TestC13(t *testing.T) {
 		st.Report(rt, map[string]any{"package_case": c}, checkC13Packages(c))
 	})
 	// (3) validation rejects override blocks for unknown packagers, accepts known ones
-	for _, k := range []string{"deb", "rpm", "apk", "archlinux", "ipk", "foo", "DEB", "pacman", ""} {
-		cfg := nfpm.Config{Info: baseInfo(), Overrides: map[string]*nfpm.Overridables{k: {Depends: []string{"x"}}}}
-		err := cfg.Validate()
-		_, gerr := nfpm.Get(k)
-		registered := gerr == nil
-		var vs vlist
-		if registered && err != nil {
-			vs.add("C13.validate-rejects-registered", k, "Validate rejects an override block for registered packager %q: %v", k, err)
+	vkeys := []string{"deb", "rpm", "apk", "archlinux", "ipk", "foo", "DEB", "pacman", "", "msi", "dep", "aab", "zzz"}
+	nval := 0
+	for i, k1 := range vkeys {
+		for j := i; j < len(vkeys); j++ {
+			// every single key and every pair of keys
+			keys := []string{k1}
+			if j > i {
+				keys = append(keys, vkeys[j])
+			}
+			cfg := nfpm.Config{Info: baseInfo(), Overrides: map[string]*nfpm.Overridables{}}
+			allRegistered := true
+			for _, k := range keys {
+				cfg.Overrides[k] = &nfpm.Overridables{Depends: []string{"x"}}
+				if _, gerr := nfpm.Get(k); gerr != nil {
+					allRegistered = false
+				}
+			}
+			err := cfg.Validate()
+			var vs vlist
+			if allRegistered && err != nil {
+				vs.add("C13.validate-rejects-registered", "", "Validate rejects override blocks for registered packagers %q: %v", keys, err)
+			}
+			if !allRegistered && err == nil {
+				vs.add("C13.validate-accepts-unregistered", "", "Validate accepts override blocks %q although one of them has no registered packager", keys)
+			}
+			st.Record(map[string]any{"validate-override-keys": keys}, true, "validate")
+			nval++
+			st.Report(t, &OverrideCase{YAML: renderConfigYAML(&cfg)}, vs)
 		}
-		if !registered && err == nil {
-			vs.add("C13.validate-accepts-unregistered", k, "Validate accepts an override block for %q, which has no registered packager", k)
-		}
-		st.Record(map[string]string{"validate-override-key": k}, true, "validate")
-		st.Report(t, &OverrideCase{YAML: renderConfigYAML(&cfg)}, vs)
 	}
+	st.Exhaustive["override key sets of size 1 and 2 checked by Validate"] = nval
 }
